@@ -3,11 +3,17 @@ CONSTANTS
   MaxAdds = 4
   MaxFlaps = 3
   MaxShut = 2
+  MaxFees = 2
+  FeeRates = {6000, 9000, 12000}
+  BaseFee = 6000
+  Kinds = {0, 1, 2}
   BlockInOnResume = FALSE
-  OweSigQuirk = FALSE
   MaxLen = 45
   AddPct = 40
   ShutPct = 20
   FlapPct = 45
+  FeePct = 12
+  RefusedPct = 6
+  DecidePct = 25
 INVARIANTS Dump
 CHECK_DEADLOCK FALSE
